@@ -1,45 +1,104 @@
 """check configuration for C20"""
 
 CFG = {'module': 'Dnp3.Props.C20',
- 'gen': ['FfiArms.lean'],
- 'engines': ['ffi'],
- 'monitors': ['ffi_struct_fields_lossless', 'ffi_variant_namesake', 'ffi_database_equivalent'],
+ 'gen': ['FfiArms.lean', 'FfiHandler.lean'],
+ 'engines': ['ffi', 'ffimeas'],
+ 'monitors': ['ffi_struct_fields_lossless',
+              'ffi_variant_namesake',
+              'ffi_database_equivalent',
+              'ffi_measurement_lossless',
+              'ffi_header_info_namesake',
+              'ffi_iterators_exhaust_exactly',
+              'no_panic'],
  'exhaustive_quick': True,
  'exhaustive_thorough': True,
- 'rule': 'engine ffi: (1) EXHAUSTIVE: every conversion arm of ffi/dnp3-ffi/src that is reachable through a '
-         'public `From` (unit variants all of them; payload variants on boundary payloads) is executed '
-         'through the REAL conversion by the generated probe and compared with the generated table (one case '
-         'per conversion); (2) replay of the known findings D21, D22 on the real code; (3) 12 struct '
-         'conversions checked field by field with pairwise distinct values (Flags: all 256 octets; '
-         'Timestamp: 3 qualities x 5 boundary values, both directions; UpdateOptions: all 6); (4) database '
-         'equivalence: 120 (quick) / 600 (thorough) random sequences of 1..200 operations (add / remove / '
-         'update / update2 / update_flags / get of the 7 measurement types + octet strings, all 6 '
-         'UpdateOptions, 3 time qualities, random flag octets, boundary values/indices, event buffers of '
-         'size 0..10 so that overflow ids occur) applied through `dnp3_database_*` and natively on a twin. '
-         'distinct = distinct canonical op lists',
- 'trusted_base': ['tools/gen_ffi.py + tools/rsparse.py: Rust token-tree reader that extracts every '
-                  'conversion `match` arm and struct-literal field assignment of ffi/dnp3-ffi/src '
-                  '(macro_rules with one rule are expanded); its reading of the arms is cross-checked '
-                  'against the real `From` impls by the generated probe (748 of 868 arms)',
-                  'rustc: exhaustiveness of every `match` and completeness of every struct literal (a '
-                  'wildcard arm or `..base` would appear in the table and fail the theorems)',
-                  'the oo-bindgen generated `ffi` module (enum <-> c_int, XFields -> X) is exercised by the '
-                  'probe and the database run but not modelled',
-                  'the `c!"..."` notation of Props/C20.lean (text -> character codes) used to write the '
-                  'reviewed lists'],
- 'assumptions': ['conversions of the binding crate are written as `match` arms / struct literals / '
-                 '`T::new(..)` calls (what the translator recognises); a conversion written in another style '
-                 'is reported as a broken tie only if it sits in a recognised conversion position, otherwise '
-                 'it is not seen'],
- 'level_text': 'Lean theorems (kernel-evaluated, whole table) that every conversion arm of the binding crate '
-               'maps a variant to its namesake or to a reviewed rename, that no rename hides an available '
-               'namesake, that each conversion is injective up to the reviewed collapses, and that every '
-               'struct conversion assigns each field from the like-named accessor; the table is regenerated '
-               'from the source on every run and cross-checked against the real conversions by a generated '
-               'probe; database operations through the binding functions are compared with native calls on a '
-               'twin database',
+ 'rule': 'engine ffi: (1) EXHAUSTIVE: every conversion arm of ffi/dnp3-ffi/src that is reachable through a public '
+         '`From` (unit variants all of them; payload variants on boundary payloads) is executed through the REAL '
+         'conversion by the generated probe and compared with the generated table (one case per conversion); (2) '
+         'replay of the known findings D21, D22 on the real code; (3) 12 struct conversions checked field by field '
+         'with pairwise distinct values (Flags: all 256 octets; Timestamp: 3 qualities x 5 boundary values, both '
+         'directions; UpdateOptions: all 6); (4) database equivalence: 120 (quick) / 600 (thorough) random sequences '
+         'of 1..200 operations (add / remove / update / update2 / update_flags / get of the 7 measurement types + '
+         'octet strings, all 6 UpdateOptions, 3 time qualities, random flag octets, boundary values/indices, event '
+         'buffers of size 0..10 so that overflow ids occur) applied through `dnp3_database_*` and natively on a '
+         'twin. distinct = distinct canonical op lists.  engine ffimeas (MASTER-SIDE MEASUREMENT PATH, model = the '
+         'identity up to reviewed payload collapses, Model/FfiMeas.lean): the REAL `impl dnp3::master::ReadHandler '
+         'for dnp3_ffi::ffi::ReadHandler` is called with native values built by the harness; the interface struct '
+         'holds `extern "C"` callbacks that drain the opaque iterators with the exported `dnp3_*_iterator_next` / '
+         '`dnp3_byte_iterator_next` / `dnp3_attr_item_iter_next` until NULL (then twice more, and once with a null '
+         'iterator) exactly as a C consumer does, and record C ints / bools / octets; what was observed is compared '
+         'with what was put in through hand-written parallel tables (name <-> native variant, name <-> C int of the '
+         'like-named binding variant, IIN bit positions, `Option<Time>` as (value, quality)).  (1) begin_fragment / '
+         'end_fragment: 1024 (quick) / 4096 (thorough) calls: 4 read types x 2 functions x 16 control-bit patterns x '
+         '16 sequence numbers, every IIN bit alone, none, all, random; (2) HeaderInfo: EVERY native variation '
+         '(Variation::lookup over all 65536 group/variation octets; payload variants Group0 / Group110 / Group111 on '
+         'payloads 0 1 2 127 128 253 255 + random) x qualifiers x is_event x has_flags (thorough: the full product '
+         'of 32 per variation; quick: every one of the 8 qualifiers and every (is_event, has_flags) pair per '
+         'variation), through each of the 12 iterator callbacks in turn; (3) the eleven point / event / '
+         'unsigned-integer types: per type one header sweeping all 256 flag octets (or 64 items for the flag-less '
+         'types) and 80 (quick) / 240 (thorough) headers of 0, 1, 2, 3..30, 30..120 (600) items: indices 0 1 255 256 '
+         '32768 65534 65535, runs crossing 255/256 and 65535, the three time qualities x timestamps 0, 1, 2^32-1, '
+         '2^47, 2^48-2, 2^48-1 (a native Timestamp holds 48 bits, larger values cannot be built), analogs 0, -0, NaN '
+         '(two payloads), +-inf, max, min, subnormal, random bit patterns, counters 0 1 2^31 2^32-1, all four '
+         'DoubleBit values, all 20 CommandStatus codes + Unknown(20|126|255), the four analog command value types on '
+         'their extreme values; (4) octet strings: one header with 256 strings of EVERY length 0..255, headers of '
+         'empty strings only, equal strings, 0 strings, 120 (quick) / 600 (thorough) random headers of 0..60 (300) '
+         'strings (uniform length as in g110, and mixed), one in three (and the 256-length header) also with a '
+         'consumer that reads only k = 0..3 or 7 octets of every string (monitor-only `@partial`); (5) '
+         'handle_abs_time on boundary / random timestamps; (6) handle_device_attribute: EVERY attribute variation '
+         '0..255 x sets 0, 7 (thorough also 1, 255) x nine value types (string, uint, int, f32, f64, octet string, '
+         'bit string, time, variation list of 0..255 items) - every combination the native classification '
+         '(AnyAttribute::try_from) accepts, i.e. all known attributes and the Unknown path of all eight binding '
+         'enums; (7) an interface struct without any callback; (8) visible strings with an embedded NUL (outside the '
+         'domain of the lossless statement: a C string cannot carry them): 16 calls, the binding may refuse the '
+         'attribute but a truncated string presented as the value fails `ffi_measurement_lossless`',
+ 'trusted_base': ['tools/gen_ffi.py + tools/rsparse.py: Rust token-tree reader that extracts every conversion '
+                  '`match` arm and struct-literal field assignment of ffi/dnp3-ffi/src (macro_rules with one rule '
+                  'are expanded); its reading of the arms is cross-checked against the real `From` impls by the '
+                  'generated probe (748 of 868 arms)',
+                  'rustc: exhaustiveness of every `match` and completeness of every struct literal (a wildcard arm '
+                  'or `..base` would appear in the table and fail the theorems)',
+                  'the oo-bindgen generated `ffi` module (enum <-> c_int, XFields -> X) is exercised by the probe '
+                  'and the database run but not modelled',
+                  'the `c!"..."` notation of Props/C20.lean (text -> character codes) used to write the reviewed '
+                  'lists',
+                  'tools/gen_ffi_handler.py + tools/rsparse.py: reads `impl ReadHandler for ffi::ReadHandler`, '
+                  '`implement_iterator!` (macro body and instantiations), the `ffi::X::new` parameter lists and '
+                  '`OctetStringIterator` of ffi/dnp3-ffi/src/handler.rs into Gen/FfiHandler.lean (statement shapes '
+                  'it does not recognise are emitted as kind 0 and fail `octet_iterator_fresh_byte_iterator`; a '
+                  'missing construct is a broken tie)',
+                  'engine ffimeas: hooks/ffimeas_probe.rs exposes three native constructors only (Sequence::new, '
+                  'Variation::lookup, a VariationList through the public AttrValue::parse); the C-int -> name '
+                  'reading of the binding enums Variation and *Attr uses the oo-bindgen generated `From<c_int>` + '
+                  'derived Debug (what the C / C# / Java consumers are generated from)'],
+ 'assumptions': ['conversions of the binding crate are written as `match` arms / struct literals / `T::new(..)` '
+                 'calls (what the translator recognises); a conversion written in another style is reported as a '
+                 'broken tie only if it sits in a recognised conversion position, otherwise it is not seen',
+                 'engine ffimeas drives the trait impl directly with harness-built iterators; that the master hands '
+                 'the handler the values it parsed is C07/C15, not C20'],
+ 'level_text': 'Lean theorems (kernel-evaluated, whole table) that every conversion arm of the binding crate maps a '
+               'variant to its namesake or to a reviewed rename, that no rename hides an available namesake, that '
+               'each conversion is injective up to the reviewed collapses, and that every struct conversion assigns '
+               'each field from the like-named accessor; the table is regenerated from the source on every run and '
+               'cross-checked against the real conversions by a generated probe; database operations through the '
+               'binding functions are compared with native calls on a twin database; for the master-side measurement '
+               'path: Lean theorems over the regenerated table Gen/FfiHandler.lean that every method of `impl '
+               'ReadHandler for ffi::ReadHandler` invokes exactly its namesake callback with its own adapter, that '
+               'every `implement_iterator!` instantiation and the macro body feed `ffi::X::new(idx, value)` from the '
+               'namesake components of the native pair, that every exported next function advances then yields, that '
+               '`OctetStringIterator::next` creates a fresh ByteIterator for every item, and that every '
+               '`handle_device_attribute` arm reaches its namesake callback with its own value; plus the real trait '
+               'impl driven with native values and observed through `extern "C"` callbacks like a foreign consumer, '
+               'compared with the identity model',
  'level_note': 'trusted: Lean kernel, gen_ffi.py (reading validated by the probe for 86% of the arms), rustc '
-               "exhaustiveness; the event buffer's transmitted bytes are not compared (only UpdateInfo ids, "
-               'get results, returned flags); cfg-gated (serial/tls) and crate-private conversions are '
-               'covered by the theorems but not executed',
- 'table_diag': 'tools/diag_c20.lean'}
+               "exhaustiveness; the event buffer's transmitted bytes are not compared (only UpdateInfo ids, get "
+               'results, returned flags); cfg-gated (serial/tls) and crate-private conversions are covered by the '
+               'theorems but not executed; ffimeas: `handle_analog_input_dead_band` has no counterpart in the '
+               'binding interface (never delivered, by design of the schema); visible strings with an embedded NUL '
+               'are dropped with a warning (not representable as C strings)',
+ 'table_diag': 'tools/diag_c20.lean',
+ 'engine_monitors': {'ffi': ['ffi_struct_fields_lossless', 'ffi_variant_namesake', 'ffi_database_equivalent'],
+                     'ffimeas': ['ffi_measurement_lossless',
+                                 'ffi_header_info_namesake',
+                                 'ffi_iterators_exhaust_exactly',
+                                 'no_panic']}}
